@@ -8,6 +8,7 @@
      h:<lo>,<hi>  a size_hint observation (hi may be "none")
    iterator results: "ok" followed by one token per executed call. *)
 open Io
+let ip = Extracted.iter
 let v = Base.coq_val
 let w32 = Zar.shift_left Zar.one 32
 let b256 = Zar.of_int 256
@@ -85,7 +86,7 @@ let init () =
   reg_ms "u.to_bytes_le" tle tle_s; reg_ms "u.tr_to_le" tle tle_s;
   reg_ms "u.to_bytes_be" tbe tbe_s; reg_ms "u.tr_to_be" tbe tbe_s;
   reg_ms "u.to_u32_digits"
-    (one (fun a -> out (fun r -> ok (res_d r)) (Bytes.uto_u32_digits (uarg a))))
+    (one (fun a -> out (fun r -> ok (res_d r)) (Bytes.uto_u32_digits ip (uarg a))))
     (one (fun a -> ok (res_d (SpecBytes.spec_to_u32_digits (v (uarg a))))));
   reg_ms "u.to_u64_digits"
     (one (fun a -> ok (res_d (Bytes.uto_u64_digits (uarg a)))))
@@ -105,7 +106,7 @@ let init () =
     (one (fun a -> out (fun p -> sign_pair p res_b) (Bytes.ito_bytes_be (iarg a))))
     (one (fun a -> let x = iarg a in sign_pair (isgn x, SpecBytes.spec_to_bytes_be (iabs x)) res_b));
   reg_ms "i.to_u32_digits"
-    (one (fun a -> out (fun p -> sign_pair p res_d) (Bytes.ito_u32_digits (iarg a))))
+    (one (fun a -> out (fun p -> sign_pair p res_d) (Bytes.ito_u32_digits ip (iarg a))))
     (one (fun a -> let x = iarg a in sign_pair (isgn x, SpecBytes.spec_to_u32_digits (iabs x)) res_d));
   reg_ms "i.to_u64_digits"
     (one (fun a -> sign_pair (Bytes.ito_u64_digits (iarg a)) res_d))
@@ -125,13 +126,13 @@ let init () =
   reg_ms "i.to_signed_bytes_be" stbe stbe_s; reg_ms "i.tr_to_be" stbe stbe_s;
   (* ---- iterators *)
   reg_ms "u.iter32"
-    (two (fun a s -> render_obs (Iter.it_run (parse_script s) (Iter.it_new (uarg a)))))
+    (two (fun a s -> render_obs (Iter.it_run ip (parse_script s) (Iter.it_new ip (uarg a)))))
     (two (fun a s -> render_obs (SpecBytes.spec_iter32 (v (uarg a)) (parse_script s))));
   reg_ms "u.iter64"
     (two (fun a s -> render_obs (Iter.it64_run (parse_script s) (uarg a))))
     (two (fun a s -> render_obs (SpecBytes.spec_iter64 (v (uarg a)) (parse_script s))));
   reg_ms "i.iter32"
-    (two (fun a s -> render_obs (Iter.it_run (parse_script s) (Iter.it_new (iarg a).Base.mag))))
+    (two (fun a s -> render_obs (Iter.it_run ip (parse_script s) (Iter.it_new ip (iarg a).Base.mag))))
     (two (fun a s -> render_obs (SpecBytes.spec_iter32 (iabs (iarg a)) (parse_script s))));
   reg_ms "i.iter64"
     (two (fun a s -> render_obs (Iter.it64_run (parse_script s) (iarg a).Base.mag)))
